@@ -77,8 +77,11 @@ class St:
         self.bf = to_z3(me.fields["bf"], "real")
         self.n = _iv(v["n"])
         self.k = _iv(v["_k0"]) if "_k0" in v else None
-        self.pid, self.acc, self.furc, self.conn, self.mask, self.dis = (v[x] for x in ("pid", "acc", "furcations", "conn", "mask", "dis"))
+        # furc: the GHOST child count g_nk (maintained by the ghost step), not the program's own counter: which local array of the
+        # carrier counts the children (and under which name) is left to the coupling invariant `some-program-array-counts-the-children`
+        self.pid, self.acc, self.furc, self.conn, self.mask, self.dis = (v[x] for x in ("pid", "acc", "g_nk", "conn", "mask", "dis"))
         self.pos, self.perm, self.crank, self.kid, self.depth = (v[x] for x in ("g_pos", "g_perm", "g_crank", "g_kid", "g_depth"))
+        self.counters = [x for nm, x in v.items() if not nm.startswith("g_") and isinstance(x, X.V1) and x.kind == "int"]
 
     FIELDS = ("pid", "acc", "furc", "conn", "mask", "dis", "pos", "perm", "crank", "kid", "depth")
 
@@ -163,56 +166,99 @@ def _q(*names):
 
 def inv(which):
     def f(E, v, o):
-        s = St(v)
-        n, k = s.n, s.k
-        a, b, r = _q("a", "b", "r")
-        if which == "order-is-a-bijection":
-            return z3.And(
-                s.Pos(0) == 0,
-                z3.ForAll([a], z3.Implies(s.inr(a), z3.And(s.inr(s.Pos(a)), s.Perm(s.Pos(a)) == a))),
-                z3.ForAll([b], z3.Implies(s.inr(b), z3.And(s.inr(s.Perm(b)), s.Pos(s.Perm(b)) == b))),
-            )
-        if which == "connected-are-the-first-k+1-of-the-order":
-            return z3.ForAll([a], z3.Implies(s.inr(a), s.Conn(a) == (s.Pos(a) <= k)))
-        if which == "parent-table":
-            p = s.Pid(a)
-            return z3.And(
-                s.Pid(0) == -1,
-                z3.ForAll([a], z3.Implies(z3.And(s.inr(a), a != 0), z3.If(s.Conn(a), z3.And(s.inr(p), s.Conn(p), s.Pos(p) < s.Pos(a)), p == -1))),
-            )
-        if which == "depth-witness":
-            return z3.And(
-                s.Depth(0) == 0,
-                z3.ForAll([a], z3.Implies(z3.And(s.inr(a), a != 0, s.Conn(a)), z3.And(s.Depth(a) == s.Depth(s.Pid(a)) + 1, s.Depth(a) > 0))),
-            )
-        if which == "path-length":
-            p = s.Pid(a)
-            return z3.And(
-                s.Acc(0) == 0,
-                z3.ForAll([a], z3.Implies(z3.And(s.inr(a), a != 0), z3.If(s.Conn(a), s.Acc(a) == s.Acc(p) + s.Dis(p, a), s.Acc(a) == 0))),
-            )
-        if which == "furcations-count-the-children":
-            p, c = s.Pid(a), s.Kid(a, r)
-            return z3.And(
-                z3.ForAll([a], z3.Implies(s.inr(a), z3.And(s.Furc(a) >= 0, z3.Implies(z3.Not(s.Conn(a)), s.Furc(a) == 0)))),
-                z3.ForAll([a], z3.Implies(z3.And(s.inr(a), a != 0, s.Conn(a)), z3.And(1 <= s.Crank(a), s.Crank(a) <= s.Furc(p), s.Kid(p, s.Crank(a)) == a))),
-                z3.ForAll([a, r], z3.Implies(z3.And(s.inr(a), 1 <= r, r <= s.Furc(a)), z3.And(s.inr(c), c != 0, s.Conn(c), s.Pid(c) == a, s.Crank(c) == r))),
-            )
-        if which == "cap":
-            return z3.Implies(s.K != -1, z3.ForAll([a], z3.Implies(z3.And(s.inr(a), z3.Or(z3.Not(s.ex), a != 0)), s.Furc(a) <= s.K)))
-        if which == "latest-node-has-no-children":
-            return s.Furc(s.Perm(k)) == 0
-        if which == "mask-characterisation":
-            return z3.ForAll([a, b], z3.Implies(z3.And(s.inr(a), s.inr(b)), z3.Not(s.Mask(a, b)) == s.cand(a, b)))
-        if which == "every-attachment-so-far-was-greedy":
-            return s.greedy_history(True)
-        raise KeyError(which)
+        r = _inv(which, E, v, o)
+        E.ghost[("c17-inv", which)] = r
+        return r
 
     return f
 
 
+def _inv(which, E, v, o):
+    s = St(v)
+    n, k = s.n, s.k
+    a, b, r = _q("a", "b", "r")
+    if which == "order-is-a-bijection":
+        return z3.And(
+            s.Pos(0) == 0,
+            z3.ForAll([a], z3.Implies(s.inr(a), z3.And(s.inr(s.Pos(a)), s.Perm(s.Pos(a)) == a))),
+            z3.ForAll([b], z3.Implies(s.inr(b), z3.And(s.inr(s.Perm(b)), s.Pos(s.Perm(b)) == b))),
+        )
+    if which == "connected-are-the-first-k+1-of-the-order":
+        return z3.ForAll([a], z3.Implies(s.inr(a), s.Conn(a) == (s.Pos(a) <= k)))
+    if which == "parent-table":
+        p = s.Pid(a)
+        return z3.And(
+            s.Pid(0) == -1,
+            z3.ForAll([a], z3.Implies(z3.And(s.inr(a), a != 0), z3.If(s.Conn(a), z3.And(s.inr(p), s.Conn(p), s.Pos(p) < s.Pos(a)), p == -1))),
+        )
+    if which == "depth-witness":
+        return z3.And(
+            s.Depth(0) == 0,
+            z3.ForAll([a], z3.Implies(z3.And(s.inr(a), a != 0, s.Conn(a)), z3.And(s.Depth(a) == s.Depth(s.Pid(a)) + 1, s.Depth(a) > 0))),
+        )
+    if which == "path-length":
+        p = s.Pid(a)
+        return z3.And(
+            s.Acc(0) == 0,
+            z3.ForAll([a], z3.Implies(z3.And(s.inr(a), a != 0), z3.If(s.Conn(a), s.Acc(a) == s.Acc(p) + s.Dis(p, a), s.Acc(a) == 0))),
+        )
+    if which == "furcations-count-the-children":
+        p, c = s.Pid(a), s.Kid(a, r)
+        return z3.And(
+            z3.ForAll([a], z3.Implies(s.inr(a), z3.And(s.Furc(a) >= 0, z3.Implies(z3.Not(s.Conn(a)), s.Furc(a) == 0)))),
+            z3.ForAll([a], z3.Implies(z3.And(s.inr(a), a != 0, s.Conn(a)), z3.And(1 <= s.Crank(a), s.Crank(a) <= s.Furc(p), s.Kid(p, s.Crank(a)) == a))),
+            z3.ForAll([a, r], z3.Implies(z3.And(s.inr(a), 1 <= r, r <= s.Furc(a)), z3.And(s.inr(c), c != 0, s.Conn(c), s.Pid(c) == a, s.Crank(c) == r))),
+        )
+    if which == "some-program-array-counts-the-children":
+        # coupling of the program's bookkeeping with the ghost count: SOME integer array local of the carrier (whatever its
+        # name) holds, for every row, the number of children attached so far
+        return z3.Or(*[z3.ForAll([a], z3.Implies(s.inr(a), X.sel1(c.arr, a) == s.Furc(a))) for c in s.counters])
+    if which == "cap":
+        return z3.Implies(s.K != -1, z3.ForAll([a], z3.Implies(z3.And(s.inr(a), z3.Or(z3.Not(s.ex), a != 0)), s.Furc(a) <= s.K)))
+    if which == "latest-node-has-no-children":
+        return s.Furc(s.Perm(k)) == 0
+    if which == "mask-characterisation":
+        return z3.ForAll([a, b], z3.Implies(z3.And(s.inr(a), s.inr(b)), z3.Not(s.Mask(a, b)) == s.cand(a, b)))
+    if which == "every-attachment-so-far-was-greedy":
+        return s.greedy_history(True)
+    raise KeyError(which)
+
+
 INVS = ["order-is-a-bijection", "connected-are-the-first-k+1-of-the-order", "parent-table", "depth-witness", "path-length",
-        "furcations-count-the-children", "cap", "latest-node-has-no-children", "mask-characterisation", "every-attachment-so-far-was-greedy"]
+        "furcations-count-the-children", "cap", "latest-node-has-no-children", "mask-characterisation", "every-attachment-so-far-was-greedy",
+        "some-program-array-counts-the-children"]  # the coupling comes last: a carrier whose bookkeeping differs must first face the clauses above
+
+
+# ---------------------------------------------------------- step contract of the loop
+# The loop body, run from an ARBITRARY state that satisfies the loop invariant, is verified against a step contract whose clauses are
+# the per-iteration form of the property (mechanism anchors of C17: "Prim-style greedy loop over a masked cost matrix", "mask
+# bookkeeping for connected points and saturated parents").  These are clauses of the property, not proof structure: they are emitted
+# as obligations of kind `postcondition` (`.../step/<clause>`, and `.../loop-start/<clause>` for the state in which the loop is
+# entered) right before the loop invariant of the same content, which then finds them among its hypotheses.
+STEP = {
+    "connected-are-the-first-k+1-of-the-order": "exactly-the-points-attached-so-far-are-marked-connected",
+    "parent-table": "every-connected-point-but-the-root-has-a-parent-that-was-connected-before-it-and-no-other-point-has-a-parent",
+    "path-length": "path-length-of-every-connected-point-is-its-parents-plus-the-edge-length",
+    "furcations-count-the-children": "the-children-of-every-point-are-numbered-1-to-its-child-count",
+    "cap": "no-non-exempt-point-has-more-than-K-children",
+    "mask-characterisation": "open-cells-of-the-mask-are-exactly-the-edges-from-a-connected-unsaturated-point-to-an-unconnected-point",
+}
+STEP_NOTE = "step contract of the loop (arbitrary iteration, arbitrary state satisfying the loop invariant): a clause of the property per iteration"
+FN = "PointsToCuntzMST.__call__"
+
+
+def step_hint(label, phase):
+    def h(E, v):
+        goal = E.ghost.get(("c17-inv", label))
+        if goal is None:
+            goal = _inv(label, E, v, None)
+        E.prove(f"{FN}/{'loop-start' if phase == 'entry' else 'step'}/{STEP[label]}", goal, "postcondition", STEP_NOTE)
+
+    return h
+
+
+def step_hints():
+    return {f"loop0/{phase}/{label}": step_hint(label, phase) for label in STEP for phase in ("entry", "preserved")}
 
 
 # ---------------------------------------------------------- annotation point: right after `(i, j) = ...`
@@ -230,9 +276,13 @@ def after_pick(which):
         i, j = _iv(v["i"]), _iv(v["j"])
         a, b = _q("a", "b")
         if which == "chosen-edge-joins-connected-unsaturated-to-unconnected":
-            return z3.And(s.inr(i), s.inr(j), s.cand(i, j))
+            goal = z3.And(s.inr(i), s.inr(j), s.cand(i, j))
+            E.prove(f"{FN}/step/{which}", goal, "postcondition", STEP_NOTE)
+            return goal
         if which == "chosen-edge-minimises-length-plus-bf-times-path-length-over-exactly-the-candidates":
-            return z3.ForAll([a, b], z3.Implies(z3.And(s.inr(a), s.inr(b), s.cand(a, b)), s.cost(i, j) <= s.cost(a, b)))
+            goal = z3.ForAll([a, b], z3.Implies(z3.And(s.inr(a), s.inr(b), s.cand(a, b)), s.cost(i, j) <= s.cost(a, b)))
+            E.prove(f"{FN}/step/{which}", goal, "postcondition", STEP_NOTE)
+            return goal
         if which == "ghost-step":
             # ghost code (touches ghost arrays only): j takes position k+1 of the attachment order (swap), becomes the
             # (furcations[i]+1)-th child of i, one level below i
@@ -242,6 +292,7 @@ def after_pick(which):
             s.perm.arr = z3.Store(z3.Store(s.perm.arr, t, w), k + 1, j)
             s.pos.arr = z3.Store(z3.Store(s.pos.arr, w, t), j, k + 1)
             rk = s.Furc(i) + 1
+            s.furc.arr = z3.Store(s.furc.arr, i, rk)
             s.crank.arr = z3.Store(s.crank.arr, j, rk)
             old = s.kid.arr
             s.kid.arr = z3.Store(old, i, rk, j)
@@ -526,7 +577,7 @@ def call_setup(soma_given, names_given=False):
         ghosts = dict(
             g_pos=X.V1(ident, n, "int", name="g_pos"), g_perm=X.V1(ident, n, "int", name="g_perm"),
             g_crank=X.V1(z3.K(I, z3.IntVal(0)), n, "int", name="g_crank"), g_kid=X.M2.const("int", n, n, 0, name="g_kid"),
-            g_depth=X.V1(z3.K(I, z3.IntVal(0)), n, "int", name="g_depth"),
+            g_depth=X.V1(z3.K(I, z3.IntVal(0)), n, "int", name="g_depth"), g_nk=X.V1(z3.K(I, z3.IntVal(0)), n, "int", name="g_nk"),
         )
         names = SWCNames(id="ID", type="T", x="X", y="Y", z="Z", r="R", pid="PID") if names_given else None
         return dict(self=me, points=pts, soma=soma, names=names, **ghosts)
@@ -561,11 +612,11 @@ def register(R: Registry):
         variants={"soma=None": call_setup(False), "soma given": call_setup(True), "soma=None, names= given (deprecated keyword)": call_setup(False, True)},
         requires=[("bf-in-unit-interval", pre("bf-in-unit-interval")), ("branching-limit-is-minus-one-or-positive", pre("branching-limit-is-minus-one-or-positive"))],
         ensures=[(p, post(p)) for p in POSTS] + [("returned-tree/" + p, ret_post(p)) for p in RET_POSTS],
-        loops={0: dict(invariant=[(x, inv(x)) for x in INVS], modifies=["g_pos", "g_perm", "g_crank", "g_kid", "g_depth"])},
+        loops={0: dict(invariant=[(x, inv(x)) for x in INVS], modifies=["g_pos", "g_perm", "g_crank", "g_kid", "g_depth", "g_nk"])},
         options=dict(
             registry=_Overlay(R, local),
             asserts_after={"i": [(x, after_pick(x)) for x in after_i], "t": [(x, after_tree(x)) for x in after_t]},
-            hints={"safety/argmin-some-unmasked-entry": argmin_hint, "loop0/preserved/every-attachment-so-far-was-greedy": greedy_hint},
+            hints={"safety/argmin-some-unmasked-entry": argmin_hint, "loop0/preserved/every-attachment-so-far-was-greedy": greedy_hint, **step_hints()},
         ),
         notes="n symbolic; dis abstract (edist >= 0, symmetric, zero diagonal); bf, K, exclude_soma, sort symbolic; names=None, and one concrete non-default SWCNames for the deprecated keyword. "
               "Tail real: Tree.from_data_frame by its verified contract, sort_tree inlined over C05's contract of sort_nodes_impl; K = 0 and K < -1 excluded by precondition.",
